@@ -461,10 +461,10 @@ def run(ctx):
     ctx.floor("K4-from_str", "supported-hash rows of from_str", n_rows, 3)
 
     # ---- K1-cryptpw (who may construct a verifiable CryptPw) -------------------------------
-    derived = set()
+    derived = set()      # def-path prefixes of compiler-derived impls for CryptPw (Clone, ...)
     for i in F.items(UX):
-        if i["item"] == "impl" and i.get("derived") and "CryptPw" in str(i.get("self_ty", "")):
-            derived.add(str(i.get("trait", "")))
+        if i["item"] == "impl" and i.get("derived") and str(i.get("self_ty", "")).endswith("unix_passwd::CryptPw"):
+            derived.add(i["name"] + "::")
     n_ctor = 0
     all_crates = [c[:-4] for c in F.crates() if c.endswith(".lib")] + [c for c in F.crates() if c.endswith(".bin")]
     if ctx.tier != "thorough":
@@ -480,8 +480,7 @@ def run(ctx):
                     d = def_of(n)
                     if d.startswith(ENUM + "::") and d[len(ENUM) + 2:] in supported:
                         n_ctor += 1
-                        ok = name == fs["fn"] or (name.startswith("sparkle_unix_common::<unix_passwd::CryptPw as ") and
-                                                  any(name.endswith(t.split("::")[-1] + ">::" + name.split("::")[-1]) for t in derived))
+                        ok = name == fs["fn"] or any(name.startswith(pfx) for pfx in derived)
                         ctx.check(ok, "K1-cryptpw", name, "construct:" + d[len(ENUM) + 2:],
                                   "constructed in from_str / a derived impl",
                                   f"CryptPw::{d[len(ENUM) + 2:]} (a verifiable hash) is constructed outside CryptPw::from_str: the prefix table (K4-from_str) no longer covers every hash",
